@@ -42,6 +42,17 @@ def mc(ctx: Ctx, ver, retries, *, name, timeout=3000, heap="10g", coverage=False
     return r
 
 
+def live(ctx: Ctx, ver, retries, *, name, timeout=3000, heap="10g", **kw):
+    """Liveness at the design level: under weak fairness of the environment's progress actions (a connect attempt resolves, a message in flight is
+    delivered or lost, a pending timer fires) every call returns.  The bounds on keys / connections / messages in flight are guards in the model, so
+    they are chosen large enough never to block a retransmission (a blocked one would show up as a counterexample, as it did with MaxKeys = 3)."""
+    kw.setdefault("keys", 9)
+    kw.setdefault("conn", 5)
+    kw.setdefault("fly", 3)
+    cfg = "SPECIFICATION FairSpec\n" + consts(ver, retries, **kw) + "PROPERTY EveryCallReturns\nCHECK_DEADLOCK FALSE\n"
+    return ctx.mc("MC_LanSession", cfg, name=name, timeout=timeout, heap=heap)
+
+
 def clause_reachability(ctx: Ctx, pid, *, maxlen=6, versions=(3, 2)):
     """Non-vacuity of the monitor: every clause of property `pid` in SessionMon.tla must fire for some event sequence
     (spec/MonVacuity.tla explores arbitrary event sequences over a small alphabet)."""
